@@ -80,7 +80,7 @@ func ttLen(tok string) int {
 }
 
 // ttTitleText renders a token sequence; every word goes into the vocabulary.
-func ttTitleText(toks []string, g *docGen, vocab ttVocab) string {
+func ttTitleText(toks []string, g *docGen, vocab ttVocab) (string, bool) {
 	word := func(t, p, n int) string {
 		w := ttWord("t", t, p, n)
 		if n >= 40 && g.rng.Intn(3) == 0 {
@@ -106,7 +106,22 @@ func ttTitleText(toks []string, g *docGen, vocab ttVocab) string {
 			parts[i] = word(t, 1, ttLen(tok))
 		}
 	}
-	return strings.Join(parts, " ")
+	// now and then a title as people write them: an apostrophe inside a word and closing punctuation
+	// ("What's really changing next year?"); the characters decode to unknown atoms on both sides
+	deco := false
+	if len(toks) >= 3 && g.rng.Intn(6) == 0 {
+		deco = true
+		for i, tok := range toks {
+			if (tok == "w6" || tok == "w40") && len(parts[i]) > 3 {
+				parts[i] = parts[i][:2] + "'" + parts[i][2:]
+				break
+			}
+		}
+		if last := toks[len(toks)-1]; strings.HasPrefix(last, "w") {
+			parts[len(parts)-1] += pickS(g.rng, "?", "!", ".", "?!")
+		}
+	}
+	return strings.Join(parts, " "), deco
 }
 
 func ttRunWords(kind, prefix string, cnt, length int, vocab ttVocab) string {
@@ -175,6 +190,7 @@ type ttPage struct {
 	block     string // "", or tag of the repeating block
 	blockPos  string // lead | mid
 	blockText string
+	h2Other   string // text of an h2 that has nothing to do with the title
 }
 
 func (pg ttPage) render(titleRaw, h1Other, mkText string, paras []string) string {
@@ -200,6 +216,9 @@ func (pg ttPage) render(titleRaw, h1Other, mkText string, paras []string) string
 	}
 	if pg.h2 == "title" {
 		sb.WriteString("<h2>" + ttEsc(norm) + "</h2>")
+	}
+	if pg.h2 == "long" {
+		sb.WriteString("<h2>" + pg.h2Other + "</h2>")
 	}
 	blk := ""
 	if pg.block != "" {
@@ -416,13 +435,17 @@ func runTitle(c Case, e *env) []Event {
 	pos := c.str("pos", "mid")
 
 	vocab := ttVocab{}
-	titleRaw := ttSpaceNoise(ttTitleText(toks, g, vocab), g)
+	titleText, deco := ttTitleText(toks, g, vocab)
+	titleRaw := ttSpaceNoise(titleText, g)
 	h1Other := ""
 	switch pg.h1 {
 	case "short":
 		h1Other = ttRunWords("h", "hd", 2, 4, vocab)
 	case "long":
 		h1Other = ttRunWords("h", "hd", 6, 4, vocab)
+	}
+	if pg.h2 == "long" {
+		pg.h2Other = ttRunWords("g", "hg", 6, 4, vocab)
 	}
 	mkText := ""
 	if pg.mk != "none" {
@@ -439,7 +462,7 @@ func runTitle(c Case, e *env) []Event {
 	if c.ID%16 == 0 {
 		opt.Log = (c.ID / 16) % 16
 	}
-	p := map[string]interface{}{"toks": toks, "h1": pg.h1, "h2": pg.h2, "mk": pg.mk}
+	p := map[string]interface{}{"toks": toks, "h1": pg.h1, "h2": pg.h2, "mk": pg.mk, "deco": deco}
 	noRep := map[string]interface{}{"done": false, "block": block, "pos": pos, "same": true,
 		"src": ttSource{}.event(vocab), "obs": ttObserve(callOutcome{err: fmt.Errorf("not run")}, ttSource{}, vocab)}
 
